@@ -121,6 +121,7 @@ func run(r *mc.Run) {
 	r.Set("preemption_bound", bound)
 	r.Set("scenarios", len(all))
 	selfTest(r, all[len(all)/2])
+	r.WorkerProcs = 1
 	r.Parallel("sched", 16, func(shard, n int) {
 		for i, sc := range all {
 			if i%n != shard {
